@@ -62,8 +62,10 @@ def do_mutant(m, args):
         else:
             path = os.path.join(scratch, "repo", m["file"])
             src = open(path).read()
-            if src.count(m["old"]) != 1:
+            if src.count(m["old"]) != 1 and not args.benign:
                 return {"name": m["name"], "error": "old text occurs %d times" % src.count(m["old"])}
+            if src.count(m["old"]) < 1:
+                return {"name": m["name"], "error": "old text does not occur"}
             open(path, "w").write(src.replace(m["old"], m["new"]))
         res = {"name": m["name"], "props": {}}
         if args.tests:
@@ -92,12 +94,16 @@ def main():
     ap.add_argument("--jobs", type=int, default=2)
     ap.add_argument("--patch", default="")
     ap.add_argument("--props", default="")
+    ap.add_argument("--benign", action="store_true", help="run the property-preserving refactorings of selftest/benign.py; an exit 1 is a false alarm")
     args = ap.parse_args()
     args.only = [x for x in args.only.split(",") if x]
     if args.patch:
         muts = [{"name": os.path.basename(args.patch), "patch": os.path.abspath(args.patch), "props": args.props.split(",")}]
     else:
-        from mutants import MUTANTS
+        if args.benign:
+            from benign import BENIGN as MUTANTS
+        else:
+            from mutants import MUTANTS
 
         muts = MUTANTS
         if args.mutant:
@@ -112,13 +118,14 @@ def main():
                 print("ERROR   %-45s %s" % (res["name"], res["error"]))
                 continue
             for pid, r in res["props"].items():
+                label = ("KILLED" if r["killed"] else "SURVIVED") if not args.benign else ("FALSE-ALARM" if r["rc"] == 1 else ("quiet" if r["rc"] == 0 else "inconclusive"))
                 print("%-8s %-45s %s rc=%s %5.1fs %s %s" % (
-                    "KILLED" if r["killed"] else "SURVIVED", res["name"], pid, r["rc"], r["secs"],
+                    label, res["name"], pid, r["rc"], r["secs"],
                     "" if "suite_green" not in res else ("suite=green" if res["suite_green"] else "suite=RED"),
                     "; ".join(s.replace("violation signature ", "") for s in r["sigs"][:3])), flush=True)
-                if not r["killed"]:
+                if (not r["killed"] and not args.benign) or (args.benign and r["rc"] != 0):
                     print("         " + r.get("tail", "").replace("\n", "\n         ")[-800:])
-    out = os.path.join(HERE, "last_results.json")
+    out = os.path.join(HERE, "last_results_benign.json" if args.benign else "last_results.json")
     old = {}
     if os.path.exists(out):
         try:
@@ -132,6 +139,10 @@ def main():
             r = dict(r, props=merged)
         old[r["name"]] = r
     json.dump(list(old.values()), open(out, "w"), indent=1)
+    if args.benign:
+        fa = [(r["name"], p) for r in results if "props" in r for p, x in r["props"].items() if x["rc"] == 1]
+        print("false alarms:", fa)
+        return 1 if fa else 0
     surv = [(r["name"], p) for r in results if "props" in r for p, x in r["props"].items() if not x["killed"]]
     print("survivors:", surv)
     return 1 if surv else 0
